@@ -150,6 +150,18 @@ func (m *DisputeMonitor) observe(c *Chain, ctx sdk.Context, where string) (creat
 	}
 	sort.Slice(ids, func(i, j int) bool { return ids[i] < ids[j] })
 	if where == "beginblock" {
+		// "otherwise the majority of votes cast after the voting period": once a block's time lies after the end of a
+		// round's voting period, that round has been tallied by the end of the block's BeginBlock - every such round,
+		// whatever other disputes are open
+		for _, id := range ids {
+			if v, ok := vs[id]; ok && ds[id].DisputeStatus == disputetypes.Voting {
+				m.st.Count("c12.vote-end.evals")
+				if ctx.BlockTime().After(v.VoteEnd) && v.VoteResult == disputetypes.VoteResult_NO_TALLY {
+					m.st.Bucket("c12|voting-period-over-but-not-tallied")
+					c.Violate("C12", "dispute", "voting-period-over-but-round-not-tallied", map[string]interface{}{"id": id, "vote_end": v.VoteEnd.String(), "now": ctx.BlockTime().String(), "open_disputes": len(ids)})
+				}
+			}
+		}
 		// the automatic expiry: once a block's time lies more than one day after the proposal an under-funded dispute has
 		// failed by the end of that block's BeginBlock, however many partial payments it received
 		for _, id := range ids {
